@@ -102,3 +102,4 @@ package etype
 //@   pure
 //@   requires tagof(e) == typeid("crypto.Des3CbcSha1Kd") ==> len(secret) + len(salt) > 0
 //@   trusted_frame interface frame; implementations delegate to the family functions
+//@   ensures err == nil ==> bytes(k) == et_s2k(tagof(e), bytes(secret), bytes(salt), s2kparams)
